@@ -54,11 +54,13 @@ Definition seen_eqb (o : outcome) (s : seen) : bool :=
 
 (* C17_ok: exactly one operation, of the call's kind, carrying the call's arguments unchanged, and
    nothing else; the matching response reaches the app unchanged (absent stays distinct from empty),
-   an error is passed through, and a response of another kind is not turned into some value *)
+   an error is passed through, and a response of another kind is neither turned into some value nor
+   allowed to panic the core: the app is told (KeyValueError::Other "unexpected response: ...") *)
 Definition expected (c : call) (r : kv_result) : outcome :=
   match r with
   | KErr e => Failed e
-  | KOk x => if kind_eqb (response_kind x) (call_kind c) then Delivered (payload_of_response x) else Panicked
+  | KOk x => if kind_eqb (response_kind x) (call_kind c) then Delivered (payload_of_response x)
+             else Failed (mismatch_error (call_kind c))
   end.
 Definition C17_ok (c : call) (r : kv_result) (ops : list kv_op) (others : N) (s : seen) : bool :=
   ops_eqb ops [op_of_call c] && (others =? 0) && seen_eqb (expected c r) s.
